@@ -213,7 +213,7 @@ func (h *Handler) Handle(req, resp dhcpv6.DHCPv6) (dhcpv6.DHCPv6, bool) {
 		// with an empty, or length-only hint)
 
 		// Assign a new lease to satisfy the request
-		var newLeases []lease
+		allocatedNew := false
 		for i, prefix := range hints {
 			if satisfied.Test(uint(i)) {
 				continue
@@ -235,12 +235,13 @@ func (h *Handler) Handle(req, resp dhcpv6.DHCPv6) (dhcpv6.DHCPv6, bool) {
 			}
 
 			addPrefix(iapdResp, l)
-			newLeases = append(knownLeases, l)
+			knownLeases = append(knownLeases, l)
+			allocatedNew = true
 			log.Debugf("Allocated %s to %s (IAID: %x)", &allocated, client, iapd.IaId)
 		}
 
-		if newLeases != nil {
-			h.Records[recordKey(client)] = newLeases
+		if allocatedNew {
+			h.Records[recordKey(client)] = knownLeases
 		}
 		h.Unlock()
 
